@@ -5,8 +5,9 @@
 //! mutations is exactly its mutated copy; the spawner's original shows only the spawner's mutations; a
 //! captured channel is shared.  Expected renderings are computed in Rust from the generated value.
 //! Model case: `heapcopy <value>` — the Lean `deepCopy` must render the copy exactly as the task saw it
-//! and own all of it.  Known finding D24 (cyclic capture overflows the host stack) is replayed in a
-//! child process.
+//! and own all of it; `heapalias <captures> | <ops>` — values with sharing and cycles copied with one map,
+//! mutated through one alias and observed through another.  The repaired defect D24 (cyclic capture) is
+//! kept as a regression run in a child process.
 #[path = "../sched_common.rs"]
 mod sched_common;
 #[path = "../sched_vals.rs"]
@@ -24,6 +25,8 @@ struct Job {
     expected: Vec<String>,
     /// (original value's S-expression, index of the output line showing what the task saw first)
     model: Option<(String, usize)>,
+    /// `heapalias` request: the answer is all printed lines joined by `;`
+    alias_model: Option<String>,
 }
 
 fn gen_job(rng: &mut Rng, i: usize) -> Job {
@@ -45,7 +48,7 @@ fn gen_job(rng: &mut Rng, i: usize) -> Job {
             ));
             s.push_str(&mm);
             s.push_str(&format!("let a = out.read()\nlet b = out.read()\nprintln(a)\nprintln(b)\nprintln({show}(v))\nack.write(true)\n"));
-            Job { src: s, class: "capture", ty, expected: vec![sexpr(&v), sexpr(&tv), sexpr(&mv)], model: Some((sexpr(&v), 0)) }
+            Job { src: s, class: "capture", ty, expected: vec![sexpr(&v), sexpr(&tv), sexpr(&mv)], model: Some((sexpr(&v), 0)), alias_model: None }
         }
         // two tasks capture the same value and mutate it differently
         2 => {
@@ -72,6 +75,7 @@ fn gen_job(rng: &mut Rng, i: usize) -> Job {
                 ty,
                 expected: vec![sexpr(&t1v), sexpr(&mv), sexpr(&t2v), sexpr(&mv)],
                 model: Some((sexpr(&mv), 1)),
+                alias_model: None,
             }
         }
         // a captured channel is shared: the task answers on a channel created by main and captured
@@ -95,6 +99,7 @@ fn gen_job(rng: &mut Rng, i: usize) -> Job {
                 ty,
                 expected: vec![sexpr(&tv), sexpr(&rv), sexpr(&tv), sexpr(&v)],
                 model: Some((sexpr(&tv), 0)),
+                alias_model: None,
             }
         }
     }
@@ -136,7 +141,12 @@ fn main() {
     }
     let mut ctx = Ctx::from_env("C08");
     let n = if ctx.quick() { 240 } else { 3000 };
-    let jobs: Vec<Job> = (0..n).map(|i| gen_job(&mut ctx.rng, i)).collect();
+    let mut jobs: Vec<Job> = (0..n).map(|i| gen_job(&mut ctx.rng, i)).collect();
+    // aliasing inside and between captures, cyclic values (one map of copies per SpawnTask, fix 0cb8741)
+    for i in 0..n / 2 {
+        let c = gen_alias_capture(&mut ctx.rng, i);
+        jobs.push(Job { src: c.src, class: c.class, ty: Ty::Nest, expected: c.expected, model: None, alias_model: c.model });
+    }
     let results = par_map(&jobs, |j| {
         let mk = match compile_program(&j.src) {
             Ok(mk) => mk,
@@ -153,7 +163,9 @@ fn main() {
     });
     for (j, r) in jobs.iter().zip(results) {
         ctx.count(&format!("class:{}", j.class));
-        ctx.count(&format!("type:{:?}", j.ty));
+        if j.alias_model.is_none() {
+            ctx.count(&format!("type:{:?}", j.ty));
+        }
         let prog = || j.src[DECLS.len()..].replace('\n', "\\n");
         let runs = match r {
             Ok(x) => x,
@@ -187,25 +199,28 @@ fn main() {
             }
         }
         ctx.count(if all_ok { "isolated:yes" } else { "isolated:NO" });
+        if let Some(req) = &j.alias_model {
+            ctx.case(format!("{req} #{}", j.class), format!("{} {}", first_lines.join(";"), if all_ok { "owned" } else { "shared" }));
+        }
         if let Some((sx, line)) = &j.model {
             if let Some(seen) = first_lines.get(*line) {
                 ctx.case(format!("heapcopy {sx} #{}", j.class), format!("{seen} {}", if all_ok { "owned" } else { "shared" }));
             }
         }
     }
-    // known finding D24: a cyclic captured value overflows the host stack in deep_copy (child process)
+    // regression of the repaired defect D24 (fix 0cb8741): a cyclic captured value, in a child process
+    // because the unrepaired code aborts the host with a stack overflow
     let exe = std::env::current_exe().unwrap();
     match std::process::Command::new(exe).arg("--child-d24").output() {
         Ok(o) => {
             let text = String::from_utf8_lossy(&o.stdout).trim().to_string();
             if o.status.success() {
-                ctx.notes.push(format!("D24 no longer reproduces: {text}"));
+                ctx.count("regression:D24-ok");
             } else {
-                ctx.known_findings.push("D24".into());
-                ctx.notes.push(format!("D24 replay: child ended with {:?} {text}", o.status));
+                ctx.spec_fail(format!("a task capturing a cyclic struct must run and print 1 (D24 regression): child ended with {:?} {text} :: {}", o.status, D24_PROGRAM.replace('\n', "\\n")));
             }
         }
-        Err(e) => ctx.notes.push(format!("D24 replay could not be started: {e}")),
+        Err(e) => ctx.notes.push(format!("D24 regression could not be started: {e}")),
     }
     ctx.finish();
 }
